@@ -145,6 +145,16 @@ CHECKS.update({
          'outputs equal to the predicted sources, the simulation running, within the largest init_timeout; otherwise it must raise with the simulation terminated.',
          TRUSTED + '; asynchronous routines end either before every timeout or never (how far a routine with a short timeout may overrun while another one is awaited is unspecified); completion exactly at the timeout is excluded', '6 C05'),
 })
+CHECKS.update({
+ 'C06': (MC, 'TLC model checking of Persist.tla (storage while running: StoreIsCurrent, NoWriteAfterHandlerError, NothingSavedIfStartFailed, StopSavesAll; restart laws) + sharpness self-test + event histories with crash points and restarts run on real Counter / Input / Timer / InputExp / generated FSM, batch trace validation',
+         'Persist.tla defines when the storage is written (after initialisation, after every handled event of a persistent sync_state block, at a stop of a successfully started simulation together with the time stamp; never for a block whose '
+         'handler failed, never when the start failed) and what a restart does with a snapshot (Discarded: expiration measured since the stop, timer ran out during the downtime; otherwise restored unchanged with the same absolute expiry). '
+         'Histories of external events (accepted, rejected, unknown types, a handler failing before / after it modified the state, timer expiries) run under the virtual clock with a copying storage, optionally pre-seeded, with failing '
+         'start() or an abort in the first loop iteration; after every step the storage is compared with the live get_state(); the application is then restarted from the storage as it was at sampled lines with the wall clock advanced, '
+         'expiration settings per block, stale and reserved keys, also with no persistent block at all; restored state, absolute timer expiry, corresponding output, entry actions not re-run and the fall-back to the normal initialisation '
+         'must equal the specification.',
+         TRUSTED + '; the storage back-end stores copies (a plain dict would alias the FSM state data); for snapshots without a stop time stamp (crash) only expiration None / <= 0 is asserted, as documented', '6 C06'),
+})
 NA = {}
 ALL = [f'C{n:02d}' for n in range(1, 21)]
 
